@@ -317,7 +317,7 @@ func ruleApiBounds(c *Ctx) {
 // (arguments), pushes with k == 0 drop a result the code evidently meant to return.
 func ruleRetCount(c *Ctx) {
 	const R = "R10-retcount"
-	c.floor(R, 150)
+	c.floor(R, 120)
 	p := c.P
 	pushL := p.Fn("lua", "(*LState).Push")
 	pushR := p.Fn("lua", "(*registry).Push")
